@@ -343,4 +343,56 @@ Proof.
       rewrite AXX, (AI p Hp), AXY by (try exact Hp; apply (wf_nbr p w Hp Hw)). ring. }
     rewrite T1, T2. ring.
 Qed.
+
+Theorem gen_dSIS_pair_based V t :
+  veq (g_dSIS_pair_based V t G nodelist idx tr rc) (dSIS_pair_based G nodelist idx tr rc V t).
+Proof.
+  destruct (pb_wf_spec _ _ _ W) as [LG _].
+  unfold g_dSIS_pair_based, dSIS_pair_based. cbv zeta. rewrite LG. set (N := N_) in *.
+  set (Ys := slice 0 N V). set (XYs := slice N (N + N * N) V). set (XXs := slice_from (N + N * N) V).
+  assert (AY : forall i, (i < N)%nat -> vnth i Ys = psY V i) by (intros i Hi; unfold Ys, psY; rewrite vnth_slice by lia; reflexivity).
+  assert (AXY : forall i j, (i < N)%nat -> (j < N)%nat -> vnth (i * N + j) XYs = psXY nodelist V i j).
+  { intros i j Hi Hj. unfold XYs, psXY. fold N. rewrite vnth_slice by nia. f_equal. lia. }
+  assert (AXX : forall i j, vnth (i * N + j) XXs = psXX nodelist V i j).
+  { intros i j. unfold XXs, psXX. fold N. rewrite vnth_slice_from. f_equal. lia. }
+  assert (AI : forall i, (i < N)%nat -> (fun v_v => if negb (Qeqb v_v 0) then 1 / v_v else 0) (1 - vnth i Ys) = inv0 (psX V i))
+    by (intros i Hi; cbv beta; rewrite inv0_alt, AY by exact Hi; reflexivity).
+  apply veq_app; [|apply veq_app].
+  - (* dY *)
+    apply veq_tab. intros p Hp. cbv beta. rewrite (filter_nodelist _ _ _ p W Hp), sumQ_single. cbv zeta. rewrite (wf_idx p Hp).
+    unfold pbSIS_dY. cbv zeta. rewrite (AY p Hp). apply Qplus_comp; [reflexivity|].
+    apply sum_map_ext. intros v Hv. rewrite AXY by (try exact Hp; apply (wf_nbr p v Hp Hv)). reflexivity.
+  - (* dXY *)
+    apply veq_tab2. intros p q Hp Hq. cbv beta. rewrite (filter_nodelist _ _ _ p W Hp), sumQ_single. cbv zeta.
+    rewrite (wf_idx p Hp), (wf_filter_adj p q Hp Hq). unfold pbSIS_dXY. cbv zeta.
+    destruct (is_edge G nodelist p q) eqn:He; [|reflexivity].
+    rewrite sumQ_single. cbv zeta. rewrite (wf_idx q Hq), (AXY p q Hp Hq), (AXY q p Hq Hp), AXX.
+    assert (T1 : sumQ (map (fun w => tr (nd q) w * psXX nodelist V p q * vnth (q * N + idx w) XYs * (fun v_v => if negb (Qeqb v_v 0) then 1 / v_v else 0) (1 - vnth q Ys))
+                           (filter (fun w => negb (N.eqb w (nd p))) (gadj G (nd q))))
+                 == triples_in G nodelist idx tr (fun k => inv0 (psX V k)) (psXY nodelist V) (psXX nodelist V) p q).
+    { unfold triples_in, others. cbv zeta. apply sum_map_ext. intros w Hw. apply filter_In in Hw. destruct Hw as [Hw _].
+      rewrite (AI q Hq), AXY by (try exact Hq; apply (wf_nbr q w Hq Hw)). reflexivity. }
+    assert (T2 : sumQ (map (fun w => - tr (nd p) w * vnth (p * N + idx w) XYs * psXY nodelist V p q * (fun v_v => if negb (Qeqb v_v 0) then 1 / v_v else 0) (1 - vnth p Ys))
+                           (filter (fun w => negb (N.eqb w (nd q))) (gadj G (nd p))))
+                 == - triples_out G nodelist idx tr (fun k => inv0 (psX V k)) (psXY nodelist V) (psXY nodelist V) p q).
+    { unfold triples_out, others. cbv zeta. rewrite <- sum_map_opp. apply sum_map_ext. intros w Hw. apply filter_In in Hw. destruct Hw as [Hw _].
+      rewrite (AI p Hp), AXY by (try exact Hp; apply (wf_nbr p w Hp Hw)). ring. }
+    rewrite T1, T2. unfold psYY. ring.
+  - (* dXX *)
+    apply veq_tab2. intros p q Hp Hq. cbv beta. rewrite (filter_nodelist _ _ _ p W Hp), sumQ_single. cbv zeta.
+    rewrite (wf_idx p Hp), (wf_filter_adj p q Hp Hq). unfold pbSIS_dXX. cbv zeta.
+    destruct (is_edge G nodelist p q) eqn:He; [|reflexivity].
+    rewrite sumQ_single. cbv zeta. rewrite (wf_idx q Hq), (AXY p q Hp Hq), (AXY q p Hq Hp).
+    assert (T1 : sumQ (map (fun w => - tr (nd q) w * vnth (p * N + q) XXs * vnth (q * N + idx w) XYs * (fun v_v => if negb (Qeqb v_v 0) then 1 / v_v else 0) (1 - vnth q Ys))
+                           (filter (fun w => negb (N.eqb w (nd p))) (gadj G (nd q))))
+                 == - triples_in G nodelist idx tr (fun k => inv0 (psX V k)) (psXY nodelist V) (psXX nodelist V) p q).
+    { unfold triples_in, others. cbv zeta. rewrite <- sum_map_opp. apply sum_map_ext. intros w Hw. apply filter_In in Hw. destruct Hw as [Hw _].
+      rewrite AXX, (AI q Hq), AXY by (try exact Hq; apply (wf_nbr q w Hq Hw)). ring. }
+    assert (T2 : sumQ (map (fun w => - tr (nd p) w * vnth (p * N + idx w) XYs * vnth (p * N + q) XXs * (fun v_v => if negb (Qeqb v_v 0) then 1 / v_v else 0) (1 - vnth p Ys))
+                           (filter (fun w => negb (N.eqb w (nd q))) (gadj G (nd p))))
+                 == - triples_out G nodelist idx tr (fun k => inv0 (psX V k)) (psXY nodelist V) (psXX nodelist V) p q).
+    { unfold triples_out, others. cbv zeta. rewrite <- sum_map_opp. apply sum_map_ext. intros w Hw. apply filter_In in Hw. destruct Hw as [Hw _].
+      rewrite AXX, (AI p Hp), AXY by (try exact Hp; apply (wf_nbr p w Hp Hw)). ring. }
+    rewrite T1, T2. ring.
+Qed.
 End PairBasedGen.
